@@ -1062,8 +1062,9 @@ class FilterCont:
 class LazyIter:
     """src: list of pending items; stages: [('map'|'filter'|..., fnvalue)]; `tail` is a chained iterator"""
 
-    def __init__(self, items, stages, tail=None):
+    def __init__(self, items, stages, tail=None, source=None):
         self.items, self.stages, self.tail = list(items), list(stages), tail
+        self.source = source  # the by-ref iterator the items were taken from (a full drain consumes it)
 
 
 FINISHERS = {}  # kind -> function(ex, st, cont, out, rest): module-level (no captured state)
@@ -1076,6 +1077,7 @@ class DrainCont:
         self.pending = list(lazy.items)
         self.stages = lazy.stages
         self.tail = lazy.tail
+        self.source = getattr(lazy, "source", None)
         self.out = []
         self.kind = kind
         self.limit = limit
@@ -1084,6 +1086,8 @@ class DrainCont:
         self.stage_i = 0
 
     def finish(self, ex, st, out, rest):
+        if self.source is not None and self.limit is None and hasattr(self.source, "j"):
+            self.source.i = self.source.j  # drained through `&mut`/by_ref: the underlying iterator is exhausted
         return FINISHERS[self.kind](ex, st, self, out, rest)
 
     def start(self, ex, st):
@@ -1143,6 +1147,11 @@ def _fin_vec(ex, st, cont, out, rest):
     return VecM(out)
 
 
+def _fin_vec_extend(ex, st, cont, out, rest):
+    cont.target.items.extend(out)
+    return UNIT
+
+
 def _fin_count(ex, st, cont, out, rest):
     return BV(64, False, len(out))
 
@@ -1163,7 +1172,7 @@ def _fin_string(ex, st, cont, out, rest):
     return SStr(out)
 
 
-FINISHERS.update(vec=_fin_vec, count=_fin_count, next=_fin_next, string=_fin_string, pathbuf_comp=_fin_pathbuf_comp)
+FINISHERS.update(vec_extend=_fin_vec_extend, vec=_fin_vec, count=_fin_count, next=_fin_next, string=_fin_string, pathbuf_comp=_fin_pathbuf_comp)
 
 
 def _items_of(ex, st, it):
@@ -1175,7 +1184,7 @@ def _items_of(ex, st, it):
     if isinstance(it, ComponentsM):
         return LazyIter(it.comps, [])
     if hasattr(it, "remaining") and hasattr(it, "toks"):
-        return LazyIter([t[0] for t in it.remaining()], [])
+        return LazyIter([t[0] for t in it.remaining()], [], source=it)
     if isinstance(it, VecM):
         return LazyIter(it.items, [])
     raise Unsupported("iterator adapter over %r" % (it,))
@@ -1348,16 +1357,16 @@ def make_combinators():
 
     def m_iter_map(ex, st, args, callee, ty):
         l = _items_of(ex, st, args[0])
-        return LazyIter(l.items, l.stages + [("map", args[1])])
+        return LazyIter(l.items, l.stages + [("map", args[1])], source=l.source)
 
     def m_iter_filter(ex, st, args, callee, ty):
         l = _items_of(ex, st, args[0])
-        return LazyIter(l.items, l.stages + [("filter", args[1])])
+        return LazyIter(l.items, l.stages + [("filter", args[1])], source=l.source)
 
     def stage(kind):
         def f(ex, st, args, callee, ty):
             l = _items_of(ex, st, args[0])
-            return LazyIter(l.items, l.stages + [(kind, args[1])])
+            return LazyIter(l.items, l.stages + [(kind, args[1])], source=l.source)
         return f
 
     def need_plain(l, what):
@@ -1381,7 +1390,7 @@ def make_combinators():
 
     def m_skip(ex, st, args, callee, ty):
         l = need_plain(_items_of(ex, st, args[0]), "skip")
-        return LazyIter(l.items[count_of(ex, st, args[1], len(l.items)):], [])
+        return LazyIter(l.items[count_of(ex, st, args[1], len(l.items)):], [], source=l.source)
 
     def m_zip(ex, st, args, callee, ty):
         a = need_plain(_items_of(ex, st, args[0]), "zip")
@@ -1423,6 +1432,9 @@ def make_combinators():
             return DrainCont(_items_of(ex, st, args[0]), kind).start(ex, st)
         return f
 
+    def m_vec_extend_lazy(ex, st, args, callee, ty):
+        return DrainCont(_items_of(ex, st, args[1]), "vec_extend", target=_obj(ex, st, args[0])).start(ex, st)
+
     def m_lazy_next(ex, st, args, callee, ty):
         l = _obj(ex, st, args[0])
         return DrainCont(l, "next", limit=1, target=l).start(ex, st)
@@ -1461,6 +1473,7 @@ def make_combinators():
         (rx(r"^Option::<.*>::as_deref$"), m_as_deref),
         (rx(r"^Option::<.*>::as_ref$"), m_as_deref),
         (rx(r"^<.* as Iterator>::skip_while::<.*>$"), stage("skip_while")),
+        (rx(r"^<Vec<.*> as Extend<.*>>::extend::<(?:std::iter::)?(Map|Filter|SkipWhile|TakeWhile|Take|Skip|Chain)<.*>>$"), m_vec_extend_lazy),
         (rx(r"^<.* as Iterator>::take_while::<.*>$"), stage("take_while")),
         (rx(r"^<(?:std::iter::)?(Map|Filter|SkipWhile|TakeWhile|Take|Skip|Zip|Enumerate|Chain)<.*> as Iterator>::collect::<Vec<.*>>$"), collect_into("vec")),
         (rx(r"^<(?:std::iter::)?(Map|Filter|SkipWhile|TakeWhile|Take|Skip|Zip|Enumerate|Chain)<.*> as Iterator>::count$"), collect_into("count")),
